@@ -51,6 +51,15 @@ func (k Kind) StreamDesc() *grpc.StreamDesc {
 	return &grpc.StreamDesc{StreamName: strings.TrimPrefix(k.Method(), "/verif.Scripted/"), ClientStreams: k.ClientStreams(), ServerStreams: k.ServerStreams()}
 }
 
+// recvAllLimit bounds "receive until the end" loops (scripts never send that many).
+const recvAllLimit = 2000
+
+// okCodedError is an error whose gRPC status carries code OK (only possible with a custom type).
+type okCodedError struct{ msg string }
+
+func (e okCodedError) Error() string              { return e.msg }
+func (e okCodedError) GRPCStatus() *status.Status { return status.New(codes.OK, e.msg) }
+
 // Ret describes what a handler returns.
 type Ret struct {
 	How     string       `json:"how"` // ok | status | plain | eof | ueof | ctxerr | canceled | deadline
@@ -81,6 +90,8 @@ func (r Ret) Err(ctx context.Context) error {
 		return context.Canceled
 	case "deadline":
 		return context.DeadlineExceeded
+	case "okcoded":
+		return okCodedError{r.Msg}
 	}
 	panic("bad Ret.How " + r.How)
 }
@@ -221,6 +232,37 @@ func (r *Run) rec(ev Event) {
 	r.mu.Lock()
 	r.events = append(r.events, ev)
 	r.mu.Unlock()
+}
+
+// InterleavingSig summarises the cross-actor order of the recorded events.
+func (r *Run) InterleavingSig() string {
+	var b strings.Builder
+	b.WriteString(r.Carrier + "|" + r.S.Kind.String() + "|")
+	for _, e := range r.Events() {
+		if e.Who == "x" {
+			continue
+		}
+		b.WriteString(e.Who[:1] + e.Op[:1])
+		if e.Call {
+			b.WriteByte('(')
+		} else if e.Err != nil {
+			b.WriteByte('!')
+		}
+	}
+	return b.String()
+}
+
+// curEnv is the environment of the check running in this (child) process.
+var curEnv *core.Env
+
+// noteRun feeds what a finished run observed into the evidence counters.
+func noteRun(r *Run) {
+	if curEnv == nil || r == nil {
+		return
+	}
+	curEnv.Distinct("interleavings", r.InterleavingSig())
+	curEnv.Count("events_observed", int64(len(r.Events())))
+	curEnv.Count("runs_observed", 1)
 }
 
 // Events returns a copy of the log.
@@ -496,7 +538,11 @@ func (r *Run) runHandlerOps(ctx context.Context, stream grpc.ServerStream) {
 			if stream == nil {
 				continue
 			}
-			for {
+			for n := 0; ; n++ {
+				if n > recvAllLimit {
+					r.rec(Event{Who: "h", Op: "recv", Pan: fmt.Sprintf("endless stream: more than %d messages received without reaching the end", recvAllLimit)})
+					break
+				}
 				m := r.newHDest()
 				r.HRecvStarted.Add(1)
 				r.rec(Event{Who: "h", Op: "recv", Call: true})
@@ -649,6 +695,7 @@ func (r *Run) Exec(cc grpc.ClientConnInterface, parent context.Context, watchdog
 	}()
 	timer := time.NewTimer(watchdog)
 	defer timer.Stop()
+	defer noteRun(r)
 	select {
 	case <-done:
 	case <-timer.C:
@@ -879,7 +926,11 @@ func (r *Run) runClientOps(who string, st grpc.ClientStream, ops []Op) {
 			}
 			r.rec(Event{Who: who, Op: "recv", Msg: m, Err: err, Pan: pan})
 		case "recvall": // receive until an error (incl. io.EOF)
-			for {
+			for n := 0; ; n++ {
+				if n > recvAllLimit {
+					r.rec(Event{Who: who, Op: "recv", Pan: fmt.Sprintf("endless stream: more than %d messages received without reaching the end", recvAllLimit)})
+					break
+				}
 				m := r.newDest()
 				r.RecvStarted.Add(1)
 				r.rec(Event{Who: who, Op: "recv", Call: true})
